@@ -24,16 +24,17 @@ ALL_SUFFIXES = ["", "-no-context", "-context", "-base", "-base-prerelease", "-ba
                 "-base-prerelease-post-context", "-base-prerelease-post-dev-context"]
 
 
-def cfg(suffixes, rulesets, big, invariants):
+def cfg(suffixes, rulesets, big, invariants, hlens=(5,)):
     return """SPECIFICATION Spec
 CONSTANTS
   Emit = TRUE
   Suffixes = {%s}
   RuleSets = {%s}
   Big = %s
+  HLens = {%s}
 INVARIANTS %s EmitLine
 CHECK_DEADLOCK FALSE
-""" % (", ".join('"%s"' % s for s in suffixes), ", ".join(str(r) for r in rulesets), "TRUE" if big else "FALSE", " ".join(invariants))
+""" % (", ".join('"%s"' % s for s in suffixes), ", ".join(str(r) for r in rulesets), "TRUE" if big else "FALSE", ", ".join(str(h) for h in hlens), " ".join(invariants))
 
 
 def classify(pid, ev):
@@ -57,9 +58,14 @@ def run(pid, tier):
     invariants = {"C03": ["Bounds", "Monotonic"], "C04": ["LawHolds", "CleanTagUnchanged"]}[pid]
     if tier == "quick":
         sfx, rs, big = (ALL_SUFFIXES if pid == "C03" else ["", "-base-prerelease-post-dev", "-context", "-base"]), ([1] if pid == "C03" else [1, 3, 4]), False
+        hl = (5,)
+    elif pid == "C03":
+        # the order claims: every preset, the large tag / branch universe, the default and one custom rule set
+        sfx, rs, big, hl = ALL_SUFFIXES, [1, 2], True, (5, 10)
     else:
-        sfx, rs, big = ALL_SUFFIXES, [1, 2, 3, 4], True
-    r = core.tlc("MC_Flow", cfg(sfx, rs, big, invariants), pid.lower() + "-mc", workers=12, timeout=14400)
+        # the component law: every rule set and hash length (0 and 11 are refused), presets that differ in components
+        sfx, rs, big, hl = ["", "-base-prerelease-post-dev", "-context", "-base"], [1, 2, 3, 4], True, (5, 1, 10, 0, 11)
+    r = core.tlc("MC_Flow", cfg(sfx, rs, big, invariants, hl), pid.lower() + "-mc", workers=12, timeout=14400)
     core.log("%s: TLC MC_Flow: %d states, %.1fs" % (pid, r["distinct"], r["wall"]))
     obs_path = os.path.join(core.BUILD, "%s-gen-observations.ndjson" % pid.lower())
     keep = max(1, r["distinct"] // 300000)
@@ -142,10 +148,10 @@ def run(pid, tier):
     cov = dict(states=states, transitions=trans, traces_validated_against_impl=rep["evaluations"] + tev,
                samples=rep["samples"][:4], evaluations=rep["evaluations"] + tev, distinct_nontrivial=rep["nontrivial"],
                rule="Gen: %d tags x %d branch names x distance {unset,0,1,3} x {-, --dirty, --no-dirty, --clean} x --post {-,5} x "
-                    "label {-,beta} x number {-,3} x post-mode {-,tag,commit} x hash length x %d rule sets x %d standard "
+                    "label {-,beta} x number {-,3} x post-mode {-,tag,commit} x hash length %s x %d rule sets x %d standard "
                     "presets, each observed in zerv/semver/pep440 output and with one more commit; non-trivial = dirty or "
                     "ahead of the tag. Trace: those observations + %d random runs."
-                    % (5 if big else 3, 14 if big else 7, len(rs), len(sfx), n),
+                    % (5 if big else 3, 14 if big else 7, list(hl), len(rs), len(sfx), n),
                exhaustive=True, recorded_events=tev)
     return v.finish(tier, "model_checking", cov,
                     ["TLC and the CommunityModules JSON reader",
